@@ -53,3 +53,15 @@ def namespaceOk (h : Bytes → Bytes) (dlen : Nat) (supplied : List (Bytes × By
      else digests.length == its.length)
 
 end IsoMdl.Issuance
+
+namespace IsoMdl.Issuance
+/-- "empty namespaces or contradictory key authorizations are refused", on an observed outcome:
+`sizes` = elements per supplied namespace, `ns`/`de` = authorised namespaces / namespaces with
+per-element authorisations. -/
+def refusalOk (sizes : List Nat) (ns de : Option (List Nat)) (refused : Bool) : Bool :=
+  let contradictory := match ns, de with
+    | some n, some d => n.any (fun x => d.contains x)
+    | _, _ => false
+  let bad := contradictory || sizes.isEmpty || sizes.contains 0
+  !bad || refused
+end IsoMdl.Issuance
